@@ -20,7 +20,7 @@ INSTR = ["gcc", "-U__SANITIZE_THREAD__", "-O1", "-g", "-fsanitize=thread",
          "--param", "tsan-instrument-func-entry-exit=0", "--param", "tsan-distinguish-volatile=1",
          "-DCONFIG_RCU_USE_ATOMIC_BUILTINS", "-D_GNU_SOURCE", "-fno-pie",
          "-I" + os.path.join(ENG, "cfg"), "-I" + os.path.join(REPO, "include"), "-I" + os.path.join(REPO, "src"),
-         "-I" + ENG, "-w"] + TUNE
+         "-I" + ENG, "-w", "-DHAVE_CONFIG_H", "-include", os.path.join(ENG, "cfg", "config.h")] + TUNE
 PLAIN = ["gcc", "-O1", "-g", "-D_GNU_SOURCE", "-fno-pie", "-I" + ENG, "-Wall", "-Wno-unused-function"]
 
 LIB = [  # (source under REPO/src, object name, extra flags)
